@@ -55,6 +55,25 @@ func verifyTxs(block *types.Block, txGuard TxGuard, chainId uint16) error {
 		log.Error("Consensus verify fail: tx is appeared in parent blocks")
 		return ErrVerifyBlockFailed
 	}
+	// A transaction could be executed only once. So it must not appear twice in the block itself, neither as a transaction nor as a sub transaction in box
+	appearedTxs := make(map[common.Hash]struct{}, len(block.Txs))
+	for _, tx := range block.Txs {
+		hashes := []common.Hash{tx.Hash()}
+		if tx.Type() == params.BoxTx {
+			if box, err := types.GetBox(tx.Data()); err == nil {
+				for _, subTx := range box.SubTxList {
+					hashes = append(hashes, subTx.Hash())
+				}
+			}
+		}
+		for _, hash := range hashes {
+			if _, ok := appearedTxs[hash]; ok {
+				log.Error("Consensus verify fail: tx is appeared twice in block", "txHash", hash.Hex())
+				return ErrVerifyBlockFailed
+			}
+			appearedTxs[hash] = struct{}{}
+		}
+	}
 	for _, tx := range block.Txs {
 		if err := tx.VerifyTxBody(chainId, uint64(block.Time()), true); err != nil {
 			return ErrVerifyBlockFailed
